@@ -1,13 +1,48 @@
 /-
   C14 — captured spans and text cover exactly the tokens consumed.
-  INTERIM file.  Proved here about the reference semantics: the captured span of
-  a consumed prefix runs from the first kept token to the last consumed one, and
-  an empty consumption captures nothing.  The refinement theorem for the model
-  of `spanned` / `text` is in progress; until then the statement is carried by
-  the `capture` correspondence family + oracle.
+
+  English.  Setting as in C06/C07: a scanner honouring `ScanOK`, the harness filter
+  table (`PassOK`), and a lexer `lx` related to a state `s` of the reference
+  evaluator.  Here the relation is `AbsC lx s` = `Abs lx s` (C06) plus: once the
+  parse span has begun, `s.rest` is exactly the raw stream at the lexer; and every
+  position the lexer holds satisfies a predicate `P` that the scanner preserves
+  (`Closed`) — for `text`, `P` implies "char boundary of the source text"
+  (`splitAtByte … isSome`), which is what keeps the Rust slice from panicking.
+  A fresh lexer, with or without `with_filter`, is so related to the whole raw
+  stream (`absC_new`, `absC_withFilter`).  The reference semantics of a capture:
+  `consumed` = the raw tokens the wrapped parser passed (`s.rest` minus what is
+  left); `Spec.capturedSpan s.filter consumed` runs from the first *kept* consumed
+  token to the last consumed one — leading filtered tokens are not captured,
+  interior ones are.
+
+  * `C14_spanned` (PROVED): if the model of `spanned(a)` returns `Ok(Spanned{span,v})`,
+    then the reference evaluator accepts `a` with a value equal to `v` up to `normVal`,
+    the returned lexer is related to the reference's end state, and `span` IS
+    `capturedSpan s.filter consumed`; when nothing was consumed (`capturedSpan = none`)
+    the recorded span is empty (`s.byte = e.byte`; the repaired F03).
+  * `C14_text` (PROVED): likewise for `text(a)`: the returned text is the slice of the
+    source over the captured span, and is empty when nothing was consumed.
+  * `C14_partial` (PROVED): the refinement theorem for the whole fragment
+    `pegWithCap` = the C07 fragment with `spanned`/`text` anywhere (nested captures,
+    captures inside repetitions, …): model `Ok(v, lx')` ⇒ the reference evaluator with
+    any fuel `k ≥ 2 n` returns `ok v' s'` with `normVal v = normVal v'` (`normVal`
+    replaces every captured span with `s.byte = e.byte` by `emptySpan`: the model
+    reports an empty span at its position, the reference evaluator reports
+    `emptySpan`; the oracle normalises both sides the same way) and `lx'` related to
+    `s'`; model error ⇒ reference fails; reference out of fuel ⇒ model out of fuel;
+    the model never panics (in particular `text` never slices off a boundary).
+    `a` ranges over grammars of the fragment in the two theorems above.
+  * `C14_statement`: the same for captures over arbitrary `Spec.supported` grammars
+    without `captureOverFilterChange` — not proved: filter-changing nodes
+    elsewhere in the grammar are subject to F27 (see C06).
+  * The three interim theorems are kept.
+
+  Unbounded: any scanner, text, metrics, predicate `P`, grammar of the fragment, fuel.
 -/
 import TephraModel.Run
 import TephraModel.Spec.Peg
+import TephraProofs.PegCaptureSim
+import TephraProps.C07
 
 namespace Tephra.Props
 open Tephra Tephra.Spec
@@ -25,5 +60,113 @@ theorem C14_model_clamp (start e : Pos) (h : e.byte < start.byte) :
     (Span.enclosing start (if e.byte < start.byte then start else e)).s.byte
       = (Span.enclosing start (if e.byte < start.byte then start else e)).e.byte := by
   simp [h, Span.enclosing]
+
+/-! ### the refinement theorems -/
+
+open Tephra.PegRefine
+
+/-- FULL statement (kept as a def, not proved; F27 applies to its filter-changing instances): captures in any
+grammar of the PEG family in which no capture wraps a filter change. -/
+def C14_statement : Prop :=
+  ∀ (R : RunEnv) (m : Metrics) (len : Nat) (P : Pos → Prop), ScanOK R.E m len → ScanFinal R.E m → PassOK R.E →
+  Closed R.E P m → (∀ p, P p → (splitAtByte R.text p.byte).isSome = true) →
+  ∀ (n : Nat) (g : G) (lx : Lx) (s : PState) (ctx : Ctx) (W : World),
+    Spec.supported g = true → Spec.captureOverFilterChange g = false → noAssert g = true →
+    AbsC R.E m len P lx s →
+    (∀ v lx', (run R n g lx ctx W).1 = .ok v lx' → ∀ k, 2 * n ≤ k →
+      ∃ v' s', peg R.text k g s = .ok v' s' ∧ normVal v = normVal v' ∧ AbsC R.E m len P lx' s') ∧
+    (∀ e, (run R n g lx ctx W).1 = .err e → ∀ k, 2 * n ≤ k → peg R.text k g s = .fail)
+
+/-- PROVED: the refinement on the filter-preserving fragment with repetition and captures. -/
+theorem C14_partial (R : RunEnv) (m : Metrics) (len : Nat) (P : Pos → Prop)
+    (ok : ScanOK R.E m len) (hp : PassOK R.E) (hc : Closed R.E P m)
+    (hP : ∀ p, P p → (splitAtByte R.text p.byte).isSome = true)
+    (n : Nat) (g : G) (lx : Lx) (s : PState) (ctx : Ctx) (W : World)
+    (hg : pegWithCap g = true) (a : AbsC R.E m len P lx s) :
+    (∀ v lx', (run R n g lx ctx W).1 = .ok v lx' → ∀ k, 2 * n ≤ k →
+      ∃ v' s', peg R.text k g s = .ok v' s' ∧ normVal v = normVal v' ∧ AbsC R.E m len P lx' s') ∧
+    (∀ e, (run R n g lx ctx W).1 = .err e → ∀ k, 2 * n ≤ k → peg R.text k g s = .fail) ∧
+    (∀ k, 2 * n ≤ k → peg R.text k g s = .fuel → (run R n g lx ctx W).1 = .fuel) ∧
+    (run R n g lx ctx W).1 ≠ .panic := by
+  have key := fun k hk => cap_sim hc ok hp hP n n (Nat.le_refl n) k hk g lx s ctx W hg a
+  refine ⟨?_, ?_, ?_, ?_⟩
+  · intro v lx' h k hk
+    have := key k hk
+    rw [h] at this
+    obtain ⟨v', s', h1, h2, h3, _⟩ := this
+    exact ⟨v', s', h1, h2, h3⟩
+  · intro e h k hk
+    have := key k hk
+    rw [h] at this
+    exact this
+  · intro k hk h
+    have := key k hk
+    rw [h] at this
+    cases hr : (run R n g lx ctx W).1 with
+    | fuel => rfl
+    | ok v lx' => rw [hr] at this; obtain ⟨_, _, h', _⟩ := this; cases h'
+    | err e => rw [hr] at this; cases this
+    | panic => rw [hr] at this; exact this.elim
+  · intro h
+    have := key (2 * n) (Nat.le_refl _)
+    rw [h] at this
+    exact this
+
+/-- PROVED: the span recorded by `spanned(a)` is the captured span of the consumed tokens,
+or empty when nothing was consumed. -/
+theorem C14_spanned (R : RunEnv) (m : Metrics) (len : Nat) (P : Pos → Prop)
+    (ok : ScanOK R.E m len) (hp : PassOK R.E) (hc : Closed R.E P m)
+    (hP : ∀ p, P p → (splitAtByte R.text p.byte).isSome = true)
+    (n k : Nat) (hk : 2 * n ≤ k) (a : G) (lx : Lx) (s : PState) (ctx : Ctx) (W : World)
+    (hg : pegWithCap a = true) (a0 : AbsC R.E m len P lx s)
+    (val : Val) (lx2 : Lx) (hrun : (run R (n + 1) (.spanned a) lx ctx W).1 = .ok val lx2) :
+    ∃ sp v v' s1, val = .spanned sp v ∧ peg R.text k a s = .ok v' s1 ∧ normVal v = normVal v' ∧
+      AbsC R.E m len P lx2 s1 ∧
+      (match capturedSpan s.filter (s.rest.take (s.rest.length - s1.rest.length)) with
+        | some sp' => sp = sp'
+        | none => sp.s.byte = sp.e.byte) :=
+  spanned_exact hc ok hp a0
+    (fun lx1 a1 => cap_sim hc ok hp hP n n (Nat.le_refl n) k hk a lx1 s ctx W hg a1) hrun
+
+/-- PROVED: the text returned by `text(a)` is the source slice over the captured span, or
+empty when nothing was consumed. -/
+theorem C14_text (R : RunEnv) (m : Metrics) (len : Nat) (P : Pos → Prop)
+    (ok : ScanOK R.E m len) (hp : PassOK R.E) (hc : Closed R.E P m)
+    (hP : ∀ p, P p → (splitAtByte R.text p.byte).isSome = true)
+    (n k : Nat) (hk : 2 * n ≤ k) (a : G) (lx : Lx) (s : PState) (ctx : Ctx) (W : World)
+    (hg : pegWithCap a = true) (a0 : AbsC R.E m len P lx s)
+    (val : Val) (lx2 : Lx) (hrun : (run R (n + 1) (.text a) lx ctx W).1 = .ok val lx2) :
+    ∃ mid v' s1, val = .text mid ∧ peg R.text k a s = .ok v' s1 ∧ AbsC R.E m len P lx2 s1 ∧
+      (match capturedSpan s.filter (s.rest.take (s.rest.length - s1.rest.length)) with
+        | some sp' => Source.sliceBytes R.text sp'.s.byte sp'.e.byte = .ok mid
+        | none => mid = []) :=
+  text_exact hc ok hp hP a0
+    (fun lx1 a1 => cap_sim hc ok hp hP n n (Nat.le_refl n) k hk a lx1 s ctx W hg a1) hrun
+
+/-- The C07 fragment is part of the C14 fragment. -/
+theorem C14_extends_C07 : ∀ g, pegWithRep g = true → pegWithCap g = true := by
+  intro g
+  induction g <;> simp_all [pegWithRep, pegWithCap]
+
+open PegRefine.Witness in
+set_option maxRecDepth 8000 in
+/-- Non-vacuity: on `a b` with the whitespace filter, `spanned(seq[0,1])` succeeds with the span
+[0,3) (the filtered whitespace inside is covered), and `text(seq[0,1])` returns `a b`. -/
+example : ScanOK EW mW 3 ∧ PassOK EW ∧ Closed EW PW mW ∧
+    (∀ p, PW p → (splitAtByte RW.text p.byte).isSome = true) ∧ AbsC EW mW 3 PW lxW sW ∧
+    pegWithCap (.seq [0, 1]) = true ∧
+    okVal (run RW 9 (.spanned (.seq [0, 1])) lxW ctxW World.init).1 =
+      some (.spanned ⟨⟨0, 0, 0⟩, ⟨3, 0, 3⟩⟩ (.toks [⟨0, 0⟩, ⟨1, 0⟩])) ∧
+    okVal (run RW 9 (.text (.seq [0, 1])) lxW ctxW World.init).1 =
+      some (.text [⟨97, 1, 1⟩, ⟨32, 1, 1⟩, ⟨98, 1, 1⟩]) := by
+  refine ⟨scanW_ok, passW, closedW, boundaryW, absCW, rfl, ?_, ?_⟩
+  · simp [okVal, run, seqLoop, lxW, ctxW, RW, EW, scanW, mW, Lexer.withFilter, Lexer.setFilter, Lexer.new,
+      Lexer.bufferNext, Lexer.bufferLoop, Lexer.next, Lexer.nextLoop, Lexer.peek, Lexer.filtered,
+      Lexer.peekTokenSpan, Lexer.parseSpan, Lexer.tokenSpan, Span.enclosing, Span.at_, passesMask, classOf,
+      Pos.zero]
+  · simp [okVal, run, seqLoop, lxW, ctxW, RW, EW, scanW, mW, Lexer.withFilter, Lexer.setFilter, Lexer.new,
+      Lexer.bufferNext, Lexer.bufferLoop, Lexer.next, Lexer.nextLoop, Lexer.peek, Lexer.filtered,
+      Lexer.peekTokenSpan, Lexer.parseSpan, Lexer.tokenSpan, Span.enclosing, Span.at_, passesMask, classOf,
+      Pos.zero, Source.sliceBytes, splitAtByte, Nat.max]
 
 end Tephra.Props
